@@ -1,8 +1,5 @@
 SPECIFICATION Spec
-CONSTANTS NVars = 3
- MaxLen = 2
- MaxClauses = 3
- Shape = "seq"
+CONSTANT Parts <- PartsSeq3
 INVARIANT ResolutionSound
 INVARIANT RefutationComplete
 INVARIANT CertificateAccepted
